@@ -238,6 +238,9 @@ class AncillaryFeature:
         the return value of the requirement function are hashed.
         """
         hasher = hashlib.md5()
+        # identifier of the recipe (e.g. code and version of a plugin)
+        if self.identifier:
+            hasher.update(obj2bytes(self.identifier))
         # data columns
         for col in self.req_features:
             hasher.update(obj2bytes(rtdc_ds[col]))
